@@ -61,7 +61,7 @@ impl Deserialize for Block {
             })()
                 .map_err(|e| e.annotate("invalid_transactions"))?;
             match len {
-                cbor_event::Len::Len(_) => (),
+                cbor_event::Len::Len(_) => read_len.finish()?,
                 cbor_event::Len::Indefinite => match raw.special()? {
                     CBORSpecial::Break => (),
                     _ => return Err(DeserializeFailure::EndingBreakMissing.into()),
